@@ -17,7 +17,7 @@ if [ ${#seeds[@]} -eq 0 ]; then seeds=($(ls -d seeded/C??-m* | xargs -n1 basenam
 for s in "${seeds[@]}"; do
   ID=${s%%-*}
   extra=$(python3 -c "import json;print(' '.join(json.load(open('seeded/$s/meta.json')).get('also_run',[])))" 2>/dev/null)
-  if ! git -C /repo apply seeded/$s/patch.diff; then echo -e "$s\t-\tPATCH-DOES-NOT-APPLY\t" | tee -a seeded/matrix.tsv; continue; fi
+  if ! git -C /repo apply /verif/seeded/$s/patch.diff; then echo -e "$s\t-\tPATCH-DOES-NOT-APPLY\t" | tee -a seeded/matrix.tsv; continue; fi
   for C in $ID $extra; do
     MC_OUT_DIR=$OUT ./check $C quick > $OUT/log 2>&1; code=$?
     sigs=$(grep 'signature:' $OUT/log | sed 's/.*signature: //' | sort -u | head -3 | tr '\n' ' ')
